@@ -1,5 +1,88 @@
-//! C10 — not implemented yet.
+//! C10 — scale-rotation-translation composition and decomposition are mutually consistent.
+use vcore::*;
+
+pub mod refm;
+
+/// The two float widths of the types under test.
+pub trait Fl: Copy + PartialOrd + std::fmt::Debug + 'static {
+    /// unit roundoff (half an ulp of 1)
+    const U: f64;
+    /// machine epsilon as an f64
+    const EPS: f64;
+    const FAM: &'static str;
+    fn from_f64(x: f64) -> Self;
+    fn to_f64(self) -> f64;
+    fn bits(self) -> u64;
+    fn mul(self, o: Self) -> Self;
+    /// `a / |a|` evaluated in this precision
+    fn normalize3(a: [Self; 3]) -> [Self; 3];
+}
+impl Fl for f32 {
+    const U: f64 = vcore::num::U32;
+    const EPS: f64 = f32::EPSILON as f64;
+    const FAM: &'static str = "f32";
+    #[inline] fn from_f64(x: f64) -> f32 { x as f32 }
+    #[inline] fn to_f64(self) -> f64 { self as f64 }
+    #[inline] fn bits(self) -> u64 { self.to_bits() as u64 }
+    #[inline] fn mul(self, o: f32) -> f32 { self * o }
+    #[inline] fn normalize3(a: [f32; 3]) -> [f32; 3] {
+        let n = (a[0] * a[0] + a[1] * a[1] + a[2] * a[2]).sqrt();
+        [a[0] / n, a[1] / n, a[2] / n]
+    }
+}
+impl Fl for f64 {
+    const U: f64 = vcore::num::U64;
+    const EPS: f64 = f64::EPSILON;
+    const FAM: &'static str = "f64";
+    #[inline] fn from_f64(x: f64) -> f64 { x }
+    #[inline] fn to_f64(self) -> f64 { self }
+    #[inline] fn bits(self) -> u64 { self.to_bits() }
+    #[inline] fn mul(self, o: f64) -> f64 { self * o }
+    #[inline] fn normalize3(a: [f64; 3]) -> [f64; 3] {
+        let n = (a[0] * a[0] + a[1] * a[1] + a[2] * a[2]).sqrt();
+        [a[0] / n, a[1] / n, a[2] / n]
+    }
+}
+
+#[cfg(not(feature = "core"))]
+mod simd {
+    pub const VARIANT: &str = "simd";
+    use ::glam_simd as glam;
+    include!("suite.rs");
+}
+#[cfg(not(feature = "core"))]
+mod scalar {
+    pub const VARIANT: &str = "scalar";
+    use ::glam_scalar as glam;
+    include!("suite.rs");
+}
+#[cfg(not(feature = "core"))]
+mod libmv {
+    pub const VARIANT: &str = "libm";
+    use ::glam_libm as glam;
+    include!("suite.rs");
+}
+#[cfg(feature = "core")]
+mod core_simd {
+    pub const VARIANT: &str = "core";
+    use ::glam_core as glam;
+    include!("suite.rs");
+}
+
 fn main() {
-    eprintln!("c10: not implemented");
-    std::process::exit(2);
+    let args = Args::parse();
+    refm::self_test();
+    let mut subs = vec![];
+    #[cfg(not(feature = "core"))]
+    {
+        subs.extend(simd::subs(&args));
+        subs.extend(scalar::subs(&args));
+        subs.extend(libmv::subs(&args));
+    }
+    #[cfg(feature = "core")]
+    {
+        subs.extend(core_simd::subs(&args));
+    }
+    let code = main_with("C10", "see MANIFEST / evidence rule", &args, subs);
+    std::process::exit(code);
 }
